@@ -5,7 +5,7 @@
 // case = [0, gr_peers, duration, probe_fams, events]      restarting-speaker glue (C11)
 //   events: [0, rdinput] | [1, f, net, peer, pid, 0]
 // case = [1, events]                                      helper-side glue (C10)
-//   events: [0, fams, gr_opt, llgr_opt] up | [1, f, id, no_llgr, llgr_comm] announce | [2, f] eor
+//   events: [0, fams, local_gr, remote_gr, local_llgr, remote_llgr] up (capabilities; gr = [[fams], restart, nbit], llgr = [[f, t]..]) | [1, f, id, no_llgr, llgr_comm] announce | [2, f] eor
 //           | [3, reason] down | [4] failed connect | [5] restart timer | [6, f] llgr timer
 //           | [7] force_down | [8, b] admin_down
 use super::super::*;
@@ -311,31 +311,62 @@ async fn run_helper_case(l: &[Val]) -> Val {
         let e = ev.list();
         match e[0].int() {
             0 => {
+                // [0, fams, local_gr, remote_gr, local_llgr, remote_llgr]: the session comes up
+                // through the real path: the FSM outputs SessionNegotiated + SessionEstablished
+                // go through apply_outputs (PeerCodec::negotiate, negotiate_gr, negotiate_llgr,
+                // on_established, the GlobalEffects it decides to raise) and then process_effects.
                 if session.is_none() {
                     generation += 1;
                     let mut s = PeerSession::new_for_test(addr, context.clone(), tables.clone());
-                    // on_established: one Source per negotiated family
-                    for f in e[1].list().iter().map(fam_of) {
-                        let src = mk_source(addr, 1);
+                    let fams: Vec<Family> = e[1].list().iter().map(fam_of).collect();
+                    let caps = |gr: &Val, llgr: &Val| -> Vec<packet::Capability> {
+                        let mut c: Vec<packet::Capability> =
+                            fams.iter().map(|f| packet::Capability::MultiProtocol(*f)).collect();
+                        if let Some(g) = gr.list().first() {
+                            c.push(packet::Capability::GracefulRestart {
+                                flags: if g.at(2).bool() { 0x4 } else { 0 },
+                                restart_time: g.at(1).u16(),
+                                families: g.at(0).list().iter().map(|f| (fam_of(f), 0u8)).collect(),
+                            });
+                        }
+                        if let Some(l) = llgr.list().first() {
+                            c.push(packet::Capability::LongLivedGracefulRestart(
+                                l.list()
+                                    .iter()
+                                    .map(|p| (fam_of(p.at(0)), 0u8, p.at(1).u32()))
+                                    .collect(),
+                            ));
+                        }
+                        c
+                    };
+                    let local_cap = caps(&e[2], &e[4]);
+                    let remote_cap = caps(&e[3], &e[5]);
+                    s.local_cap = local_cap.clone();
+                    let codec = bgp::PeerCodec::negotiate(&local_cap, &remote_cap);
+                    let role = s.role;
+                    let outputs = vec![
+                        crate::fsm::PeerFsmOutput::Connection(
+                            role,
+                            crate::fsm::Output::SessionNegotiated(codec),
+                        ),
+                        crate::fsm::PeerFsmOutput::Connection(
+                            role,
+                            crate::fsm::Output::SessionEstablished {
+                                remote_asn: 65101,
+                                remote_id: 1,
+                                remote_holdtime: 90,
+                                remote_capabilities: remote_cap,
+                                effective_max: FnvHashMap::default(),
+                            },
+                        ),
+                    ];
+                    let local_sa: SocketAddr = "192.0.2.254:179".parse().unwrap();
+                    let remote_sa: SocketAddr = "192.0.2.1:40000".parse().unwrap();
+                    let (_step, effects) = s.apply_outputs(outputs, local_sa, remote_sa).await;
+                    s.process_effects(effects, &global).await;
+                    for src in s.source.values() {
                         sources.push((src.clone(), generation));
-                        s.source.insert(f, src);
                     }
-                    // apply_outputs(SessionEstablished): negotiate_gr / negotiate_llgr results
-                    s.negotiated_gr = e[2].list().first().map(|g| NegotiatedGr {
-                        families: g.at(0).list().iter().map(fam_of).collect(),
-                        restart_time: Duration::from_secs(g.at(1).u64()),
-                        notification_enabled: g.at(2).bool(),
-                    });
-                    s.negotiated_llgr = e[3].list().first().map(|lp| NegotiatedLlgr {
-                        families: lp
-                            .list()
-                            .iter()
-                            .map(|p| (fam_of(p.at(0)), Duration::from_secs(p.at(1).u64())))
-                            .collect(),
-                    });
-                    let negotiated_gr = s.negotiated_gr.clone();
-                    s.process_effects(vec![GlobalEffect::GrSessionEstablished { negotiated_gr }], &global)
-                        .await;
                     session = Some(s);
                 }
             }
